@@ -73,6 +73,47 @@ WEXPORT int64_t w_json_parse_reader(const uint8_t* in, size_t n, int strict, uin
   W_JSON_CATCH
 }
 
+// Either entry point (reader != 0: StringReader& entry point, *where = reader offset after the value), then describe the root
+// and up to two members reached by concrete paths. A path is a byte sequence; on a list a step is the index (byte - '0'), on a
+// dictionary the one-byte key. Results: return value / *val / sout[0..15] = root; kinds[i] / vals[i] / sout[16*(i+1)..] = member
+// i (kinds[i] = W_NO_ELEM if the path does not exist). The paths are concrete in every harness.
+static const JSON* walk(const JSON& j, const uint8_t* p, size_t n) {
+  const JSON* c = &j;
+  for (size_t i = 0; i < n; i++) {
+    if (c->is_list()) {
+      size_t idx = static_cast<size_t>(p[i] - '0');
+      if (idx >= c->size()) return nullptr;
+      c = &c->at(idx);
+    } else if (c->is_dict()) {
+      std::string k(1, static_cast<char>(p[i]));
+      if (!c->contains(k)) return nullptr;
+      c = &c->at(k);
+    } else {
+      return nullptr;
+    }
+  }
+  return c;
+}
+WEXPORT int64_t w_json_parse_q(const uint8_t* in, size_t n, int strict, int reader, uint64_t* where, const uint8_t* p0, size_t n0,
+    const uint8_t* p1, size_t n1, int64_t* kinds, uint64_t* vals, uint64_t* val, uint8_t* sout) {
+  try {
+    StringReader r(in, n);
+    JSON j = reader ? JSON::parse(r, strict != 0) : JSON::parse(reinterpret_cast<const char*>(in), n, strict != 0);
+    *where = r.where();
+    kinds[0] = kinds[1] = W_NO_ELEM;
+    if (p0) {
+      const JSON* m = walk(j, p0, n0);
+      if (m) kinds[0] = describe(*m, &vals[0], sout + 16, 16);
+    }
+    if (p1) {
+      const JSON* m = walk(j, p1, n1);
+      if (m) kinds[1] = describe(*m, &vals[1], sout + 32, 16);
+    }
+    return describe(j, val, sout, 16);
+  }
+  W_JSON_CATCH
+}
+
 // static void skip_whitespace_and_comments(StringReader&, bool): returns the reader offset afterwards
 WEXPORT int64_t w_json_skip_ws(const uint8_t* in, size_t n, size_t start, int strict) {
   try {
